@@ -146,7 +146,8 @@ def correspond_io(rng, tier, driver, res, cases):
         if not group:
             continue
         plain = sc.run_reference(group)
-        sbpath = sc.run_reference(group, pad="0", limit=limit)
+        # the sandbox's own path: after the queue, its default reply for ever (read from the tree under test)
+        sbpath = sc.run_reference(group, pad=(tr.LAST.get("input") or {}).get("defaultReply", "0"), limit=limit)
         lines, meta = [], []
         for c, rp, rs in zip(group, plain, sbpath):
             if "timeout" in rp or "timeout" in rs or "harness_error" in rp or "harness_error" in rs:
